@@ -304,6 +304,7 @@ theorem overrideRF_sound {fix : Bool} {u : String} {nu nn : Option String} {c : 
         · simp only [map_set]
           refine nodup_set hs.nodup ?_
           -- u' is the original urn, or a urn that is not in the result
+          simp only [overrideUrn] at hu'
           cases nu with
           | none => simp only [Except.ok.injEq] at hu'; subst hu'; right; simp [hidx]
           | some w =>
@@ -337,5 +338,199 @@ theorem whereRF_sound {v : RVal D} {res res' : RResult D} (hs : RSound res)
         simp only [Except.ok.injEq] at h; subst h
         have hsub := okRows_whereStream_sublist (fun r : Row D => fn r.vals) s
         exact ⟨hs.nodup, hs.valid, fun r hr => hs.rows r (hsub.subset hr), hs.incr.sublist (hsub.map _)⟩
+
+end ShpanVerif.Proofs.Query
+
+namespace ShpanVerif.Proofs.Query
+open ShpanVerif.Model.Query List
+
+variable {D : Type} (O : Ops D)
+
+theorem selectPlan_sound (fms : List FieldMeta) :
+    ∀ (fs : List (RVal D × AddFieldMeta)) (seen : List String) (nm metas : List FieldMeta)
+      (fns : List (RowFn (List (Val D)) D)),
+      selectPlan O fms fs seen nm = .ok (metas, fns) →
+      (∀ u, seen.contains u = true ↔ u ∈ nm.map (·.urn)) → (nm.map (·.urn)).Nodup →
+      (∀ m ∈ nm, m.urn ≠ "" ∧ m.dt.valid = true) →
+      (metas.map (·.urn)).Nodup ∧ (∀ m ∈ metas, m.urn ≠ "" ∧ m.dt.valid = true) ∧
+        ∀ cur, Conforms (fms ++ nm) cur → ∀ out, selectRow fns cur = some out → Conforms (fms ++ metas) out
+  | [], seen, nm, metas, fns, h, _, hnd, hv => by
+    simp only [selectPlan, Except.ok.injEq, Prod.mk.injEq] at h
+    obtain ⟨rfl, rfl⟩ := h
+    refine ⟨hnd, hv, fun cur hc out ho => ?_⟩
+    simp only [selectRow, Option.some.injEq] at ho
+    subst ho; exact hc
+  | (v, afm) :: rest, seen, nm, metas, fns, h, hseen, hnd, hv => by
+    simp only [selectPlan] at h
+    split at h
+    · simp at h
+    · rename_i hns
+      split at h
+      · simp at h
+      · rename_i fm fn hp
+        split at h
+        · simp at h
+        · rename_i metas' fns' hrec
+          simp only [Except.ok.injEq, Prod.mk.injEq] at h
+          obtain ⟨rfl, rfl⟩ := h
+          obtain ⟨hu, hne, hval, htag⟩ := planPrepare_sound O hp
+          have hnotin : afm.urn ∉ nm.map (·.urn) := fun hm => hns ((hseen _).mpr hm)
+          obtain ⟨h1, h2, h3⟩ := selectPlan_sound fms rest (afm.urn :: seen) (nm ++ [fm]) _ _ hrec
+            (by
+              intro u
+              simp only [contains_cons, Bool.or_eq_true, beq_iff_eq, map_append, map_cons, map_nil, mem_append,
+                mem_cons, not_mem_nil, or_false, hu]
+              rw [hseen u]
+              exact or_comm)
+            (by
+              simp only [map_append, map_cons, map_nil]
+              refine nodup_append.mpr ⟨hnd, by simp, ?_⟩
+              intro a ha b hb
+              simp only [mem_cons, not_mem_nil, or_false] at hb
+              subst hb
+              intro hab; subst hab
+              exact hnotin (hu ▸ ha))
+            (by
+              intro m hm
+              rcases mem_append.mp hm with hm | hm
+              · exact hv m hm
+              · simp only [mem_cons, not_mem_nil, or_false] at hm; subst hm; exact ⟨hne, hval⟩)
+          refine ⟨h1, h2, fun cur hc out ho => ?_⟩
+          simp only [selectRow, Option.bind_eq_some_iff] at ho
+          obtain ⟨x, hx, ho⟩ := ho
+          refine h3 (cur ++ [x]) ?_ out ho
+          rw [← append_assoc]
+          exact hc.append (Conforms.single (htag _ _ hc hx))
+
+theorem selectRow_length : ∀ (fns : List (RowFn (List (Val D)) D)) (cur out : List (Val D)),
+    selectRow fns cur = some out → cur.length ≤ out.length
+  | [], cur, out, h => by simp [selectRow] at h; subst h; exact Nat.le_refl _
+  | fn :: fns, cur, out, h => by
+    simp only [selectRow, Option.bind_eq_some_iff] at h
+    obtain ⟨x, _, h⟩ := h
+    have := selectRow_length fns _ _ h
+    simp at this; omega
+
+theorem selectF_sound {fs : List (RVal D × AddFieldMeta)} {res res' : RResult D} (hs : RSound res)
+    (h : selectF O fs res = .ok res') : RSound res' := by
+  obtain ⟨fms, s⟩ := res
+  simp only [selectF] at h
+  split at h
+  · simp at h
+  · split at h
+    · simp at h
+    · rename_i metas fns hplan
+      simp only [Except.ok.injEq] at h; subst h
+      obtain ⟨h1, h2, h3⟩ := selectPlan_sound O fms fs [] [] metas fns hplan (by simp) (by simp) (by simp)
+      refine hs.mapRows h1 h2 ?_ ?_
+      · intro r r' hg
+        simp only [Option.map_eq_some_iff] at hg
+        obtain ⟨x, _, rfl⟩ := hg
+        rfl
+      · intro r r' hc hg
+        simp only [Option.map_eq_some_iff] at hg
+        obtain ⟨cur, hcur, rfl⟩ := hg
+        have := h3 r.vals (by simpa using hc) cur hcur
+        rw [hc.length_eq]
+        exact this.drop_append
+
+theorem applyRF_sound {fix : Bool} {f : RFilter D} {res res' : RResult D} (hs : RSound res)
+    (h : applyRF O fix f res = .ok res') : RSound res' := by
+  cases f with
+  | append v afm => exact appendF_sound O hs h
+  | drop urns => exact dropF_sound hs h
+  | select fs => exact selectF_sound O hs h
+  | replace urn v afm => exact replaceF_sound O hs h
+  | single v afm => exact singleF_sound O hs h
+  | override u nu nn c => exact overrideRF_sound hs h
+  | where_ v => exact whereRF_sound O hs h
+
+theorem applyRFs_sound {fix : Bool} : ∀ (fs : List (RFilter D)) {res res' : RResult D}, RSound res →
+    applyRFs O fix fs res = .ok res' → RSound res'
+  | [], res, res', hs, h => by simp only [applyRFs, Except.ok.injEq] at h; subst h; exact hs
+  | f :: fs, res, res', hs, h => by
+    simp only [applyRFs, bind, Except.bind] at h
+    split at h
+    · simp at h
+    · rename_i r1 h1
+      exact applyRFs_sound fs (applyRF_sound O hs h1) h
+
+/-! ## datasource-package filters -/
+
+theorem DSound.mapRecs {fm fm' : FieldMeta} {s : DStream D} {g : DRec D → Option (DRec D)}
+    (hs : DSound (fm, s)) (hvalid : fm'.urn ≠ "" ∧ fm'.dt.valid = true)
+    (hts : ∀ r r', g r = some r' → r'.ts = r.ts)
+    (hrow : ∀ r r', tagOk fm.dt fm.required r.val → g r = some r' → tagOk fm'.dt fm'.required r'.val) :
+    DSound (fm', mapRecs g s) := by
+  refine ⟨hvalid, ?_, ?_⟩
+  · intro r' hr'
+    simp only [Model.Query.mapRecs, okRows_map_bind, mem_filterMap] at hr'
+    obtain ⟨r, hr, hg⟩ := hr'
+    exact hrow r r' (hs.rows r hr) hg
+  · simp only [Model.Query.mapRecs, okRows_map_bind]
+    exact hs.incr.sublist (filterMap_ts_sublist _ _ g hts _)
+
+theorem fvalF_sound {v : DVal D} {afm : AddFieldMeta} {res res' : DResult D} (hs : DSound res)
+    (h : fvalF O v afm res = .ok res') : DSound res' := by
+  obtain ⟨fm0, s⟩ := res
+  simp only [fvalF, bind, Except.bind] at h
+  split at h
+  · simp at h
+  · rename_i fm fn hp
+    simp only [Except.ok.injEq] at h; subst h
+    split at hp
+    · simp at hp
+    · rename_i p hplan
+      obtain ⟨rfl, _, hd, hr, hne, hv⟩ := prepareK_ok hp
+      refine hs.mapRecs ⟨hne, hv⟩ ?_ ?_
+      · intro r r' hg
+        simp only [Option.map_eq_some_iff] at hg
+        obtain ⟨x, _, rfl⟩ := hg
+        rfl
+      · intro r r' hc hg
+        simp only [Option.map_eq_some_iff] at hg
+        obtain ⟨x, hx, rfl⟩ := hg
+        rw [hd, hr]
+        exact planDVal_sound O v hplan r.val hc x hx
+
+theorem whereDF_sound {v : DVal D} {res res' : DResult D} (hs : DSound res)
+    (h : whereDF O v res = .ok res') : DSound res' := by
+  obtain ⟨fm0, s⟩ := res
+  simp only [whereDF] at h
+  split at h
+  · simp at h
+  · split at h
+    · simp at h
+    · split at h
+      · simp at h
+      · rename_i vm fn _ _ _
+        simp only [Except.ok.injEq] at h; subst h
+        have hsub := okRows_whereStream_sublist (fun r : DRec D => fn r.val) s
+        exact ⟨hs.valid, fun r hr => hs.rows r (hsub.subset hr), hs.incr.sublist (hsub.map _)⟩
+
+theorem overrideDF_sound {nu nn : Option String} {c : CustomMeta} {res res' : DResult D} (hs : DSound res)
+    (h : overrideDF nu nn c res = .ok res') : DSound res' := by
+  obtain ⟨fm0, s⟩ := res
+  simp only [overrideDF] at h
+  split at h
+  · simp at h
+  · rename_i fm hfm
+    simp only [Except.ok.injEq] at h; subst h
+    obtain ⟨rfl, hne, hv⟩ := newFieldMeta_ok hfm
+    exact ⟨⟨hne, hv⟩, hs.rows, hs.incr⟩
+
+theorem applyDFs_sound : ∀ (fs : List (DFilter D)) {res res' : DResult D}, DSound res →
+    applyDFs O fs res = .ok res' → DSound res'
+  | [], res, res', hs, h => by simp only [applyDFs, Except.ok.injEq] at h; subst h; exact hs
+  | f :: fs, res, res', hs, h => by
+    simp only [applyDFs, bind, Except.bind] at h
+    split at h
+    · simp at h
+    · rename_i r1 h1
+      refine applyDFs_sound fs ?_ h
+      cases f with
+      | fval v afm => exact fvalF_sound O hs h1
+      | where_ v => exact whereDF_sound O hs h1
+      | override nu nn c => exact overrideDF_sound hs h1
 
 end ShpanVerif.Proofs.Query
